@@ -29,7 +29,7 @@ use rs_matter::im::client::{ImClient, SubscribeOutcome};
 use rs_matter::im::{AttrPath, AttrResp, GenericPath, IMStatusCode, InteractionModel, InteractionModelState, ReportDataResp};
 use rs_matter::persist::DummyKvBlobStore;
 use rs_matter::respond::Responder;
-use rs_matter::tlv::OctetStr;
+use rs_matter::tlv::{OctetStr, TLVTag, TLVWrite};
 use rs_matter::transport::exchange::{Exchange, MatterBuffers};
 use rs_matter::transport::network::NoNetwork;
 use rs_matter::utils::select::Coalesce;
@@ -41,7 +41,12 @@ use crate::util::{arg, catch, read_ndjson, Trace};
 use crate::world::{drive, Limits, Step};
 
 const CLUSTERS: [u32; 2] = [101, 102];
-const ATTRS: [u32; 3] = [0, 1, 2];
+const ATTRS: [u32; 4] = [0, 1, 2, 3];
+/// attribute 3 of every cluster is a list of LIST_N octet strings of LIST_EL bytes (version, index, padding): a report of
+/// it alone spans several messages
+const LIST_ATTR: u32 = 3;
+const LIST_N: usize = 9;
+const LIST_EL: usize = 330;
 /// padding that makes a priming report of all six attributes span several messages
 const PAD: usize = 420;
 
@@ -54,7 +59,43 @@ impl Handler for Ver {
         let attr = ctx.attr();
         self.reads.set(self.reads.get() + 1);
         let v = *self.ver.borrow().get(&(attr.cluster_id, attr.attr_id)).ok_or(ErrorCode::AttributeNotFound)?;
-        let Some(writer) = reply.with_dataver(1)? else { return Ok(()) };
+        let Some(mut writer) = reply.with_dataver(1)? else { return Ok(()) };
+        if attr.attr_id == LIST_ATTR {
+            let el = |i: usize| {
+                let mut e = v.to_le_bytes().to_vec();
+                e.push(i as u8);
+                e.resize(LIST_EL, 0xa5);
+                e
+            };
+            let tag = writer.tag().clone();
+            return match attr.list_index.clone().map(|n| n.into_option()) {
+                None => {
+                    {
+                        let mut w = writer.writer();
+                        w.start_array(&tag)?;
+                        for i in 0..LIST_N {
+                            w.str(&TLVTag::Anonymous, &el(i))?;
+                        }
+                        w.end_container()?;
+                    }
+                    writer.complete()
+                }
+                Some(None) => {
+                    {
+                        let mut w = writer.writer();
+                        w.start_array(&tag)?;
+                        w.end_container()?;
+                    }
+                    writer.complete()
+                }
+                Some(Some(i)) => {
+                    if i as usize >= LIST_N {
+                        return Err(ErrorCode::ConstraintError.into());
+                    }
+                    writer.set(OctetStr::new(&el(i as usize)))
+                }
+            };
+        }
         let mut val = v.to_le_bytes().to_vec();
         val.resize(4 + PAD, 0x5a);
         writer.set(OctetStr::new(&val))
@@ -84,9 +125,13 @@ impl Handler for Nothing {
 }
 impl NonBlockingHandler for Nothing {}
 
-fn items_of(report: &ReportDataResp<'_>) -> (Vec<Value>, String) {
+/// list values arrive element by element, possibly over several messages: (cluster, attribute) -> versions of the elements so far
+type ListAgg = RefCell<HashMap<(u32, u32), Vec<i64>>>;
+
+fn items_of(report: &ReportDataResp<'_>, agg: &ListAgg) -> (Vec<Value>, String) {
     let mut out = Vec::new();
     let mut bad = String::new();
+    let el_ver = |s: &[u8]| if s.len() == LIST_EL { u32::from_le_bytes([s[0], s[1], s[2], s[3]]) as i64 } else { -1 };
     if let Some(evs) = &report.event_reports {
         for e in evs.iter() {
             match e {
@@ -99,6 +144,23 @@ fn items_of(report: &ReportDataResp<'_>) -> (Vec<Value>, String) {
     if let Some(reports) = &report.attr_reports {
         for a in reports.iter() {
             match a {
+                Ok(AttrResp::Data(d)) if d.path.attr == Some(LIST_ATTR) => {
+                    let key = (d.path.cluster.unwrap_or(0), LIST_ATTR);
+                    match d.path.list_index.clone().map(|x| x.into_option()) {
+                        None => {
+                            // the list starts (empty, or whole if it fits one message)
+                            let mut v = Vec::new();
+                            if let Ok(arr) = d.data.array() {
+                                for e in arr.iter() {
+                                    v.push(e.ok().and_then(|e| e.str().ok()).map(|s| el_ver(s)).unwrap_or(-1));
+                                }
+                            }
+                            agg.borrow_mut().insert(key, v);
+                        }
+                        Some(None) => agg.borrow_mut().entry(key).or_default().push(d.data.str().map(|s| el_ver(s)).unwrap_or(-1)),
+                        Some(Some(_)) => agg.borrow_mut().entry(key).or_default().push(-1),
+                    }
+                }
                 Ok(AttrResp::Data(d)) => {
                     let v = d.data.str().ok().filter(|s| s.len() >= 4).map(|s| u32::from_le_bytes([s[0], s[1], s[2], s[3]]) as i64).unwrap_or(-1);
                     out.push(json!({"cl": d.path.cluster, "a": d.path.attr, "v": v}));
@@ -108,15 +170,23 @@ fn items_of(report: &ReportDataResp<'_>) -> (Vec<Value>, String) {
             }
         }
     }
+    if !report.more_chunks.unwrap_or(false) {
+        // the report is complete: a list value counts if all its elements came, in one version at least (the oldest one)
+        for ((cl, a), v) in agg.borrow_mut().drain() {
+            let ver = if v.len() == LIST_N && v.iter().all(|x| *x >= 0) { *v.iter().min().unwrap() } else { -3 };
+            out.push(json!({"cl": cl, "a": a, "v": ver, "elements": v.len()}));
+        }
+    }
     (out, bad)
 }
 
 struct Reports<'a> {
     events: &'a RefCell<Vec<Value>>,
+    agg: ListAgg,
 }
 impl ReportDataHandler for Reports<'_> {
     async fn handle_report(&self, _ctx: impl ReportContext, report: &ReportDataResp<'_>) -> Result<(), IMStatusCode> {
-        let (items, bad) = items_of(report);
+        let (items, bad) = items_of(report, &self.agg);
         self.events.borrow_mut().push(json!({"ev": "Rep", "id": report.subscription_id, "n": items.len(), "more": report.more_chunks.unwrap_or(false), "malformed": bad, "t": sim::now_ms()}));
         for it in items {
             let mut e = it.clone();
@@ -151,7 +221,7 @@ fn run_one(ops: &[Value]) -> Vec<Value> {
         }
     }
     let spec = crate::imw::NodeSpec {
-        endpoints: vec![(1, CLUSTERS.iter().map(|c| crate::imw::ClusterSpec { id: *c, attrs: ATTRS.iter().map(|a| crate::imw::AttrSpec { id: *a, access: Access::RV, size: 0, list: None }).collect(), cmds: vec![] }).collect())],
+        endpoints: vec![(1, CLUSTERS.iter().map(|c| crate::imw::ClusterSpec { id: *c, attrs: ATTRS.iter().map(|a| crate::imw::AttrSpec { id: *a, access: Access::RV, size: 0, list: if *a == LIST_ATTR { Some(vec![LIST_EL; LIST_N]) } else { None } }).collect(), cmds: vec![] }).collect())],
         events: vec![(1, 101, 0, 0)],
     };
     let node = crate::imw::build_node(&spec);
@@ -166,7 +236,7 @@ fn run_one(ops: &[Value]) -> Vec<Value> {
     let nothing = Nothing;
     let node_c = crate::imw::build_node(&crate::imw::NodeSpec { endpoints: vec![], events: vec![] });
     let kv_c = ctl.kv(DummyKvBlobStore);
-    let reports = Reports { events: &events };
+    let reports = Reports { events: &events, agg: RefCell::new(HashMap::new()) };
     let dm_c = InteractionModel::new_with_reports(&ctl, &crypto, &buffers_c, (node_c, Async(&nothing)), &kv_c,
         rs_matter::dm::networks::wireless::NoopWirelessNetCtl::new(rs_matter::dm::clusters::net_comm::NetworkType::Ethernet), &reports, &state_c);
     let responder_c = Responder::new_default(&dm_c);
@@ -209,10 +279,11 @@ fn run_one(ops: &[Value]) -> Vec<Value> {
                                 if with_events { b.event_requests_from(&evp)?.fabric_filtered(false)?.end() } else { b.fabric_filtered(false)?.end() }
                             }).await?;
                             let mut first = true;
+                            let agg: ListAgg = RefCell::new(HashMap::new());
                             loop {
                                 {
                                     let resp = chunk.response()?;
-                                    let (items, bad) = items_of(&resp);
+                                    let (items, bad) = items_of(&resp, &agg);
                                     ev(json!({"ev": "Prime", "s": s, "n": items.len(), "more": resp.more_chunks.unwrap_or(false), "malformed": bad, "t": sim::now_ms()}));
                                     for it in items {
                                         let mut e = it.clone();
